@@ -76,6 +76,10 @@ fn extensions(prefix: &[SEntry], reduced: bool) -> Vec<SEntry> {
 }
 
 /// check one list under one compression and both APIs; returns (key, detail) complaints
+pub fn extensions_pub(prefix: &[SEntry], reduced: bool) -> Vec<SEntry> {
+    extensions(prefix, reduced)
+}
+
 pub fn check_list(es: &[SEntry], c: Compression) -> Vec<(String, String)> {
     let mut bad = Vec::new();
     let code = comp_code(c);
